@@ -28,13 +28,16 @@ func init() {
 				"request-specific adjustment (AD bit, ECS echo) and after hop-by-hop data is removed, and re-applies those " +
 				"adjustments on the hit path.",
 			NotCovered: "the rounding amount of the served TTL, LRU eviction, that the cache library honours the expiry (trusted).",
-			Rules: map[string]string{"C04-R16": "the main middleware disposes of the original response only when a different one was written (a response that is written, cached and disposed twice aliases pooled records; shared with C07-R3)", "C04-R17": "the initial middleware sets AD unconditionally in the request handed to the pipeline, so cached answers carry the upstream's AD for every requester (table shared with C01-R21)", "C04-R15": "ecscache ServeDNS: the upstream request carries the subnet the cache is keyed by (table shared with C05-R1)", "C04-R14": "TTL stores on records that may come from an additional section are guarded by a not-OPT test (the OPT TTL field is extended rcode / version / DO)", "C04-RC": "class rules (error chains, shadowed results, character classes, crossed arguments, pool constructors, array pools, loop completeness, loop-carried buffers, replacing setters, complete clones, Grow arithmetic, pooled-buffer escape, sorted searches, fresh decode targets, per-iteration objects, whole-message copies, codec guards) over the packages this property rests on", "C04-R13": "setECS leaves exactly one subnet option, in requests and responses alike (table shared with C05-R4)", "C04-R12": "cache wrappers (agdcache, ecscache, dnsserver/cache) use every parameter: key, value and expiration reach the wrapped cache", "C04-R1": "served TTL aged on every path", "C04-R2": "cache key completeness", "C04-R3": "cacheability and store tables",
+			Rules: map[string]string{"C04-R18": "isCacheableNOERROR (both caches): the authority section qualifies a NODATA answer only through an SOA record", "C04-R16": "the main middleware disposes of the original response only when a different one was written (a response that is written, cached and disposed twice aliases pooled records; shared with C07-R3)", "C04-R17": "the initial middleware sets AD unconditionally in the request handed to the pipeline, so cached answers carry the upstream's AD for every requester (table shared with C01-R21)", "C04-R15": "ecscache ServeDNS: the upstream request carries the subnet the cache is keyed by (table shared with C05-R1)", "C04-R14": "TTL stores on records that may come from an additional section are guarded by a not-OPT test (the OPT TTL field is extended rcode / version / DO)", "C04-RC": "class rules (error chains, shadowed results, character classes, crossed arguments, pool constructors, array pools, loop completeness, loop-carried buffers, replacing setters, complete clones, Grow arithmetic, pooled-buffer escape, sorted searches, fresh decode targets, per-iteration objects, whole-message copies, codec guards) over the packages this property rests on", "C04-R13": "setECS leaves exactly one subnet option, in requests and responses alike (table shared with C05-R4)", "C04-R12": "cache wrappers (agdcache, ecscache, dnsserver/cache) use every parameter: key, value and expiration reach the wrapped cache", "C04-R1": "served TTL aged on every path", "C04-R2": "cache key completeness", "C04-R3": "cacheability and store tables",
 				"C04-R4": "lowest-TTL helper table", "C04-R5": "hit-path coverage and store ordering", "C04-R6": "cached items are private deep copies"},
 		}})
 }
 
 func runC04(c *an.Ctx) {
 	classSweep(c, "C04")
+	// ---- R18: NODATA answers are cacheable only with the zone's SOA record
+	c.Floor("C04-R18", 2)
+	c04NodataNeedsSOA(c, "C04-R18")
 	// ---- R16: the original response is handed back to the pools only when another one was written (shared with C07-R3);
 	// R17: the pipeline always sees AD set, so a cached answer's AD bit does not depend on who asked first (shared with C01-R21)
 	c.Floor("C04-R16", 1)
@@ -776,4 +779,33 @@ func c04ClonerPools(c *an.Ctx, rule string) {
 	}
 	sort.Strings(keys)
 	sharedPoolInit(c, rule, keys...)
+}
+
+// c04NodataNeedsSOA: a NOERROR answer without a record of the requested type is
+// a cacheable NODATA answer only if its authority section holds the zone's SOA
+// (RFC 2308, 2.2 and 5: the negative TTL comes from it).  An NS record there
+// marks a referral or an unfollowed alias chain, an incomplete answer that
+// must not be stored.  The authority-section test of isCacheableNOERROR, in
+// both caches, asserts exactly one record type, *dns.SOA.
+func c04NodataNeedsSOA(c *an.Ctx, rule string) {
+	for _, k := range []string{"dnsserver/cache.isCacheableNOERROR", "ecscache.isCacheableNOERROR"} {
+		fn := c.Fn(k)
+		key := k + " accepts a NODATA answer only with an SOA record"
+		if fn == nil {
+			c.Und(rule, key, token.NoPos, "anchor not found")
+			continue
+		}
+		c.Analysed(k)
+		var asserted []string
+		an.Instrs(fn, func(in ssa.Instruction) {
+			if ta, ok := in.(*ssa.TypeAssert); ok {
+				asserted = append(asserted, an.TypeName(an.Deref(ta.AssertedType)))
+			}
+		})
+		asserted = uniq(asserted)
+		sort.Strings(asserted)
+		c.Check(len(asserted) == 1 && strings.HasSuffix(asserted[0], "dns.SOA"), rule, key, fn.Pos(),
+			"the only record type looked for in the authority section is SOA",
+			"the record types looked for are ["+strings.Join(asserted, ", ")+"]: an answer with NS records only (a referral, an unfollowed CNAME chain) is stored and served in place of the real answer")
+	}
 }
